@@ -1,1 +1,4 @@
 import AL.Props.C08
+#print axioms AL.C08.check_case_insensitive
+#print axioms AL.C08.keywords_case_sensitive
+#print axioms AL.C08.json_keys_folded
